@@ -10,6 +10,7 @@ import subprocess
 from common import *
 import c03
 import c09
+import c10
 
 CRATES = {  # crate: (path, declared features (without "default"))
     'blake-hash': ('hashes/blake', ['simd', 'std']),
@@ -107,9 +108,10 @@ def body(run, a):
     sel = [i for i, e in enumerate(c03.entries('quick')) if e[0] in ('chacha:refill4:dr=10', 'chacha:refill1:dr=4', 'chacha:ietf:seek+apply', 'blake256:update+finalize', 'blake512:update+finalize')]
     check.parallel(run, c03.one, [(i, configs) for i in sel])
     check.parallel(run, c09.case, [(c, b) for c in ('release-std', 'release-nounroll') for b in (256, 512, 1024)])
+    check.parallel(run, c10.case, [(c, b, o) for c in ('release-std', 'release-nounroll') for b in (256, 512, 1024) for o in ('encdec', 'decenc')])
     run.canary('the lattice enumeration covers every declared feature of every crate (%d points)' % len(points), len(points) >= 40)
     run.bounds = {'lattice': '%d points = power set of the declared features of each of the 9 crates + the default set' % len(points),
-                  'toolchain / target': 'pinned stable toolchain, x86_64-unknown-linux-gnu', 'clause 2 entries': [c03.entries('quick')[i][0] for i in sel] + ['threefish 256/512/1024 unrolled vs no_unroll'],
+                  'toolchain / target': 'pinned stable toolchain, x86_64-unknown-linux-gnu', 'clause 2 entries': [c03.entries('quick')[i][0] for i in sel] + ['threefish 256/512/1024 encryption and both round trips, unrolled vs no_unroll'],
                   'outside': 'other targets; features of dependencies outside the workspace'}
     run.assumptions += ['clause 1 is decided by rustc (a configuration that does not compile cannot be encoded); clause 2 by symbolic execution + z3 as in C03/C09']
 
